@@ -32,7 +32,7 @@ from sa.core import Repo                   # noqa: E402
 
 MIRROR = {ast.Lt: ast.Gt, ast.Gt: ast.Lt, ast.LtE: ast.GtE, ast.GtE: ast.LtE}
 OPS = ('swap-eq', 'mirror-cmp', 'aug-expand', 'not-eq', 'if-flip', 'pass-insert', 'slice0', 'range0', 'extract-temp',
-       'stderr-print', 'unused-assign', 'else-unnest', 'else-nest', 'len-truth', 'swap-adjacent')
+       'stderr-print', 'unused-assign', 'else-unnest', 'else-nest', 'len-truth', 'swap-adjacent', 'assert-insert', 'diag-if', 'ann-local')
 
 
 def find_fn(tree, lname):
@@ -74,7 +74,9 @@ def sites(fn, op):
         elif op == 'range0' and isinstance(n, ast.Call) and isinstance(n.func, ast.Name) and n.func.id == 'range' and (
                 len(n.args) == 1 or (len(n.args) == 2 and isinstance(n.args[0], ast.Constant) and n.args[0].value == 0)):
             out.append(i)
-        elif op in ('stderr-print', 'unused-assign') and isinstance(n, ast.stmt) and n is not fn and not isinstance(n, (ast.FunctionDef, ast.ClassDef)) \
+        elif op == 'ann-local' and isinstance(n, ast.Assign) and len(n.targets) == 1 and isinstance(n.targets[0], ast.Name):
+            out.append(i)
+        elif op in ('stderr-print', 'unused-assign', 'assert-insert', 'diag-if') and isinstance(n, ast.stmt) and n is not fn and not isinstance(n, (ast.FunctionDef, ast.ClassDef)) \
                 and not (isinstance(n, ast.Expr) and isinstance(n.value, ast.Constant)):
             out.append(i)
         elif op == 'else-unnest' and isinstance(n, ast.If) and n.orelse and n.body and isinstance(n.body[-1], (ast.Return, ast.Continue, ast.Break, ast.Raise)):
@@ -194,12 +196,21 @@ def apply(fn, op, idx):
         elif op == 'if-flip':
             n.test = ast.UnaryOp(op=ast.Not(), operand=n.test)
             n.body, n.orelse = n.orelse, n.body
-        elif op in ('stderr-print', 'unused-assign'):
+        elif op == 'ann-local':
+            new = ast.AnnAssign(target=n.targets[0], annotation=ast.Name(id='object', ctx=ast.Load()), value=n.value, simple=1)
+            lst, k = _block_of(fn, n)
+            if lst is not None:
+                lst[k] = ast.copy_location(new, n)
+        elif op in ('stderr-print', 'unused-assign', 'assert-insert', 'diag-if'):
             lst, k = _block_of(fn, n)
             if lst is None:
                 return False
             if op == 'stderr-print':
                 new = ast.parse("print('debug: reached', file=sys.stderr)").body[0]
+            elif op == 'assert-insert':
+                new = ast.parse("assert len(str(0)) == 1, 'cannot happen'").body[0]
+            elif op == 'diag-if':
+                new = ast.parse("if len(str(0)) != 1:\n    print('diagnostic: cannot happen', file=sys.stderr)").body[0]
             else:
                 new = ast.parse("unused_dbg_x9 = 0").body[0]
             lst.insert(k, ast.copy_location(new, n))
